@@ -29,6 +29,16 @@ def analyse(prop, src=None):
     except Exception as e:
         return [], [f"cannot build the program model: {type(e).__name__}: {e}"], None, mod
     outcomes, errors = core.run_rules(prop, mod.RULES, ctx)
+    # rules borrowed from the modules of other properties (rules/borrow.py): the machinery this property depends on
+    from rules.borrow import BORROW
+    for srcprop, fname in BORROW.get(prop, []):
+        m2 = importlib.import_module(f"rules.{srcprop}")
+        outs, errs = core.run_rules(prop, [getattr(m2, fname)], ctx)
+        for o in outs:
+            o.text += f" [borrowed from {srcprop}: {prop}'s observable behaviour goes through the function(s) this rule examines]"
+            o.rule = f"R{prop[1:]}/{o.rule}"
+        outcomes += outs
+        errors += errs
     return outcomes, errors, ctx, mod
 
 
